@@ -113,4 +113,4 @@ def vendor_stream(rng, tier):
 def generate(rng, tier):
     """the component-level cases, then the clause seen through the whole request/reply pipeline"""
     import pipeline, focus
-    return generate_core(rng, tier) + vendor_stream(rng, tier) + focus.loop_cases(rng, 240 if tier == 'thorough' else 24) + focus.reply_ttl_cases(rng, 300 if tier == 'thorough' else 24) + pipeline.cases(rng, 300 if tier == 'thorough' else 20, nops=10)
+    return generate_core(rng, tier) + vendor_stream(rng, tier) + focus.loop_cases(rng, 240 if tier == 'thorough' else 24) + focus.reply_ttl_cases(rng, 300 if tier == 'thorough' else 24) + focus.dynext_cases(rng, 200 if tier == 'thorough' else 12) + pipeline.cases(rng, 300 if tier == 'thorough' else 20, nops=10)
